@@ -52,6 +52,7 @@ func (z *Decimal) Sqrt(x *Decimal) *Decimal {
 	// when z.prec > x.prec this will lower z.prec. Restore it after
 	// the MantExp call.
 	prec := z.prec
+	mode := z.mode
 	b := x.MantExp(z)
 	z.prec = prec
 
@@ -73,10 +74,66 @@ func (z *Decimal) Sqrt(x *Decimal) *Decimal {
 	// very small precisions (<_DW/2).
 	//
 	// Solve 1/x² - z = 0 instead.
-	z.sqrtInverse(z)
+	// MantExp also copied x's rounding mode into z. Compute an approximation
+	// with one guard digit, correct it to the exact truncated root and only
+	// then round once, to z's precision and with z's own rounding mode.
+	x0 := new(Decimal).Copy(z)
+	if prec < MaxPrec {
+		z.prec = prec + 1
+	}
+	z.mode = ToNearestEven
+	z.sqrtInverse(x0)
+	sbit := z.sqrtFloor(x0)
+	z.prec = prec
+	z.mode = mode
+	if n := int(prec/_DW) + 1; sbit != 0 && len(z.mant) < n {
+		// make sure round does not take the "mantissa fits" shortcut
+		// and ignore the sticky bit.
+		m := make(dec, n)
+		copy(m[n-len(z.mant):], z.mant)
+		z.mant = m
+	}
+	z.round(sbit)
+	acc := z.acc
 
-	// restore precision and re-attach halved exponent
-	return z.SetMantExp(z, b/2)
+	// re-attach halved exponent
+	z.SetMantExp(z, b/2)
+	z.acc = acc
+	return z
+}
+
+// sqrtFloor adjusts z, an approximation of √x good to a few units in the last
+// of its z.prec digits, to the largest z.prec digits number that is not
+// greater than √x. It returns 0 if z is then exactly √x, and 1 otherwise.
+func (z *Decimal) sqrtFloor(x *Decimal) (sbit uint) {
+	p := uint(z.prec)
+	ulp := NewDecimal(1, 0)             // 0.1e1; exponent set below
+	sq := new(Decimal).SetPrec(2*p + 2) // large enough for exact squares
+	t := new(Decimal).SetPrec(p + 1)
+	for {
+		c := sq.Mul(z, z).Cmp(x)
+		if c == 0 {
+			return 0
+		}
+		if c < 0 {
+			break
+		}
+		ulp.exp = z.exp - int32(p) + 1
+		z.Sub(z, ulp)
+	}
+	// z² < x
+	for {
+		ulp.exp = z.exp - int32(p) + 1
+		t.Add(z, ulp)
+		c := sq.Mul(t, t).Cmp(x)
+		if c > 0 {
+			return 1
+		}
+		z.Set(t)
+		if c == 0 {
+			return 0
+		}
+	}
 }
 
 // Compute √x (to z.prec precision) by solving
